@@ -924,6 +924,22 @@ func ruleG4(c *Ctx) *RuleResult {
 func ruleG5(c *Ctx) *RuleResult {
 	r := &RuleResult{Floor: 1, FloorWhat: "calls through clientTrack.onData"}
 	onData := c.Field("", "clientTrack", "onData")
+	if onData == nil {
+		// renamed: the one function-typed field of clientTrack that takes the two timestamps and the units
+		if nt := c.NamedType("", "clientTrack"); nt != nil {
+			if st, ok := nt.Underlying().(*types.Struct); ok {
+				var cands []*types.Var
+				for i := 0; i < st.NumFields(); i++ {
+					if sig, ok := st.Field(i).Type().Underlying().(*types.Signature); ok && sig.Params().Len() == 3 && sig.Results().Len() == 0 {
+						cands = append(cands, st.Field(i))
+					}
+				}
+				if len(cands) == 1 {
+					onData = cands[0]
+				}
+			}
+		}
+	}
 	hd := c.Method("", "clientTrack", "handleData")
 	if onData == nil || hd == nil {
 		r.undecided("clientTrack.onData / handleData not found")
